@@ -15,7 +15,7 @@ BASE = {
     "weights": {"conn": 6, "disc": 4, "try": 22, "lock": 12, "unl": 18, "ren": 8, "cancel": 3, "adv": 16, "restart": 2,
                 "shutdown": 0, "probe": 6, "ipcl": 0, "ipcu": 0},
     "max_len": 30, "min_len": 8, "sessions": 3,
-    "names": [H("a"), H("ab"), H("b")],
+    "names": [H("a"), H("ab"), H("b"), H("a:b")],
     "sizes": [None, None, None, 1, 2, 2, 3],
     "lts": [None, None, 0, 1, 2, 3, 5],
     "wts": [None, None, 0, 1, 2, 3],
@@ -42,11 +42,12 @@ def prof(**kw):
 PROPS = {
     "C04": (prof(weights={"ren": 16, "adv": 26, "try": 18, "lock": 10, "unl": 10, "restart": 3},
                  lts=[None, 0, 1, 1, 2, 2, 3, 5], sizes=[None, None, 1, 1, 2],
+                 names=[H("a"), H("ab"), H("a:b"), H("a:"), H("a/b"), H("b")],
                  advs=[0, 1, 999999999, 1000000000, 1000000001, 1999999999, 2000000000, 2000000001, 3000000000, 5000000000],
-                 probe_every=2, bad_key_pct=10),
+                 probe_every=2, bad_key_pct=18),
             "C04", ["C04", "HOLDS", "FRESH"], (300, 6000)),
     "C07": (prof(weights={"try": 20, "lock": 8, "unl": 24, "ren": 16, "adv": 8, "probe": 0, "restart": 1, "ipcu": 3},
-                 names=[H("a"), H("ab"), H("b"), H("abc"), H("a:"), H("1:a"), H("a "), H(" a")],
+                 names=[H("a"), H("ab"), H("b"), H("abc"), H("a:"), H("1:a"), H("a "), H(" a"), H("a:b"), H("a/b")],
                  sizes=[None, None, 1, 2, 0, -1, 3], lts=[None, 0, 1, 5, -1], wts=[None, 0, 1, -1],
                  probe_every=0, probe_around=True, bad_key_pct=45, no_sess_pct=4),
             "C07", ["C07", "HOLDS", "FRESH"], (300, 6000)),
@@ -78,6 +79,7 @@ PROPS = {
                  advs=[0, 1, 999999999, 1000000000, 1000000001, 2000000000, 3000000000]),
             "C03", ["C03", "HOLDS"], (250, 5000)),
     "C05": (prof(weights={"unl": 20, "ren": 20, "adv": 24, "try": 20}, lts=[1, 1, 2, 3], probe_every=1,
+                 names=[H("a"), H("ab"), H("a:b"), H("b")], bad_key_pct=20,
                  advs=[0, 1, 999999999, 1000000000, 1000000001, 2000000000]),
             "C04", ["C04", "HOLDS"], (200, 4000)),
     "C06": (prof(weights={"conn": 10, "disc": 14, "lock": 14, "try": 24, "adv": 10}, probe_every=1, noclear=[False, False, True, True]),
